@@ -553,7 +553,12 @@ class AsyncFIXConnection:
                 msg_logon = FIXMessage(FMsg.LOGON)
                 msg_logon.set(FTag.EncryptMethod, logon_msg[FTag.EncryptMethod])
                 msg_logon.set(FTag.HeartBtInt, logon_msg[FTag.HeartBtInt])
-                await self.send_msg(msg_logon)
+                try:
+                    await self.send_msg(msg_logon)
+                except Exception:
+                    # the Logon() reply did not go out: never stay half logged-on
+                    await self.disconnect(ConnectionState.DISCONNECTED_BROKEN_CONN)
+                    raise
 
         if msg_seq_num == self._session.next_num_in:
             await self._state_set(ConnectionState.ACTIVE)
